@@ -18,12 +18,15 @@ def check(run):
         crules.model_rules(run, r3, ast, parts=("params",))
         # a class only gets a cell for a method if it is known to derive from the method's class: every listed base of every
         # registration record is recorded
-        crules.merge_rules(run, r3, None, ast)
+        crules.merge_rules(run, r3, r3, ast)
         # the v-table pointer a call starts from is the one this update installed
         if "C04-vptr" not in run.rules:
             run.rule("C04-vptr", "the v-table pointer table is rewritten (overwriting) by every update at the key calls read it at", floor=3)
         from . import c09
         c09.table_writer_rule(run, ast, "C04-vptr")
+        c09.ast_rules(run, "C04-vptr", ast, table=False)
+        # the index at which that table is read: the hash is collision-free on the registered ids and republished by every update
+        crules.hash_rules(run, "C04-vptr", "C04-vptr", "C04-vptr", "C04-vptr", "C04-vptr", ast)
         # which classes get a cell for a method (covariant set of its parameter class), and what is written in a class's cells
         if "C04-cells" not in run.rules:
             run.rule("C04-cells", "a class gets a cell for (method, parameter) iff it is in the covariant set of the parameter's class; v-table entries carry (method, parameter, group); install_gv fills every entry", floor=8)
